@@ -861,6 +861,9 @@ pub struct Tracker {
     pub max_ever: Option<u64>,
     /// a call was answered Panic/Hang
     pub fatal: bool,
+    /// a call was answered with an error although it changed the store: from here on the answers
+    /// no longer describe the engine's state (e.g. a block may be open that no receipt told of)
+    pub desynced: bool,
 }
 
 fn is_rpc_status_error(m: &str) -> bool { m.starts_with("Bitcoin RPC status check failed") }
@@ -891,7 +894,10 @@ impl Tracker {
 
     pub fn on(&mut self, idx: usize, op: &Op, out: &OpOut) {
         if out.status.is_fatal() { self.fatal = true; return; }
-        if !Tracker::effective(op, out) { return; }
+        if !Tracker::effective(op, out) {
+            if out.status.is_rejected() && out.events.iter().any(is_mutation) { self.desynced = true; }
+            return;
+        }
         match op {
             Op::Initialise { hash, ts, height } => {
                 if self.blocks.is_empty() && *height == 0 {
@@ -1310,7 +1316,7 @@ impl Run {
     pub fn observe(&mut self) -> BTreeMap<String, Value> { let u = self.universe.clone(); self.observe_with(&u) }
     pub fn observe_with(&mut self, u: &Universe) -> BTreeMap<String, Value> {
         let mut u = u.clone();
-        u.block_open = !self.tracker.at_boundary();
+        u.block_open = !self.tracker.at_boundary() || self.tracker.desynced;
         observe(&mut self.inst, &u)
     }
     pub fn history(&self) -> Vec<Op> { self.log.iter().map(|x| x.0.clone()).collect() }
